@@ -115,7 +115,9 @@ func (j *Join) Exec() ([]any, error) {
 		{
 			return j.StraightJoin()
 		}
-	case j.joinType.IsHashJoin() || hashJoinAnalyze(j.leftIdent, j.rightIdent, j.joinExpr):
+	// a hash join can only serve a conjunction of equalities; HASH_JOIN requested for
+	// any other condition falls back to the nested loop instead of joining on equality
+	case hashJoinAnalyze(j.leftIdent, j.rightIdent, j.joinExpr):
 		{
 			return j.HashJoin()
 		}
